@@ -65,7 +65,7 @@ func flavour(repl bool) string {
 // buildDefs draws definitions in a mixed order (generators may use earlier pure functions and vice versa).
 func buildDefs(g *gen.G, sw Swarm) []string {
 	var srcs []string
-	srcs = append(srcs, gen.PreludeSrc[0]) // deep: generated bodies may call it
+	srcs = append(srcs, gen.PreludeSrc[0], gen.PosSrc) // deep and pos: generated bodies may call them
 	if sw.Prelude {
 		srcs = append(srcs, gen.PreludeSrc[1:]...)
 	}
